@@ -13,6 +13,9 @@ fn main() {
     }
     let check = argv[1].clone();
     let args = Args::parse(&argv[2..]);
+    if check == "metacrash-child" {
+        dverif::comp::metacrash::child(&args);
+    }
     if check == "smcrash-child" {
         dverif::comp::smcrash::child(&args);
     }
